@@ -28,6 +28,7 @@ FUNCS = {
     "only_except": (NW.only_except, ["only_except"]), "declared": (NW.declared, ["declared"]),
     "method": (NW.Holder.method, ["Holder", "method"]), "static": (NW.Holder.static, ["Holder", "static"]),
     "genfn": (NW.genfn, ["genfn"]),
+    "reassigned": (NW.reassigned, ["reassigned"]), "counter": (NW.counter, ["make_counter", "counter"]), "matcher": (NW.matcher, ["matcher"]),
     "total": (NW.total, ["total"]), "report": (NW.report, ["report"]), "annotated": (NW.annotated, ["annotated"]),
 }
 
